@@ -2,7 +2,6 @@
 from __future__ import annotations
 
 import ast
-import copy
 from dataclasses import dataclass, field
 from typing import Dict, List, Optional, Tuple
 
@@ -34,20 +33,18 @@ EXPECTED_STATE_CLASSES = {
 def _strip_replace(e: ast.AST) -> ast.AST:
     """`replace(X, k=v).f` / `X._replace(k=v).f` with f not among the replaced keys denotes `X.f`."""
 
-    class T(ast.NodeTransformer):
-        def visit_Attribute(self, n):
-            n = self.generic_visit(n)
+    def f(n):
+        if isinstance(n, ast.Attribute) and isinstance(n.value, ast.Call):
             v = n.value
-            if isinstance(v, ast.Call):
-                nm = v.func.attr if isinstance(v.func, ast.Attribute) else (v.func.id if isinstance(v.func, ast.Name) else None)
-                kws = {k.arg for k in v.keywords}
-                if nm == "replace" and v.args and n.attr not in kws and None not in kws:
-                    return ast.copy_location(ast.Attribute(value=v.args[0], attr=n.attr, ctx=n.ctx), n)
-                if nm == "_replace" and isinstance(v.func, ast.Attribute) and n.attr not in kws and None not in kws:
-                    return ast.copy_location(ast.Attribute(value=v.func.value, attr=n.attr, ctx=n.ctx), n)
-            return n
+            nm = v.func.attr if isinstance(v.func, ast.Attribute) else (v.func.id if isinstance(v.func, ast.Name) else None)
+            kws = {k.arg for k in v.keywords}
+            if nm == "replace" and v.args and n.attr not in kws and None not in kws:
+                return ast.copy_location(ast.Attribute(value=v.args[0], attr=n.attr, ctx=n.ctx), n)
+            if nm == "_replace" and isinstance(v.func, ast.Attribute) and n.attr not in kws and None not in kws:
+                return ast.copy_location(ast.Attribute(value=v.func.value, attr=n.attr, ctx=n.ctx), n)
+        return n
 
-    return T().visit(e)
+    return flow.rewrite(e, f)
 
 
 def norm(e: ast.AST, rename: Optional[Dict[str, str]] = None) -> ast.AST:
